@@ -155,8 +155,10 @@ fn gen_history(ctx: &mut Ctx, g: &[Ent], steps: u64, votes_only: bool) -> Vec<Op
                 applied = Some(o);
                 snap = Some(o);
                 has_snap = true;
-                if ctx.rng.chance(2, 3) {
-                    // openraft purges the log up to the installed snapshot
+                // openraft purges the log up to the installed snapshot; it has to when the snapshot reaches
+                // beyond the local log (otherwise the next append would leave a hole). Never below the marker.
+                let beyond = local.keys().next_back().map_or(true, |l| o > *l);
+                if (beyond || ctx.rng.chance(2, 3)) && purged.map_or(true, |p| o >= p) {
                     ops.push(Op::Purge(gmap[&o].log_id));
                     local.retain(|k, _| *k > o);
                     purged = Some(purged.map_or(o, |p| p.max(o)));
@@ -167,6 +169,9 @@ fn gen_history(ctx: &mut Ctx, g: &[Ent], steps: u64, votes_only: bool) -> Vec<Op
                 if !has_snap { continue; }
                 let Some(s) = snap else { continue };
                 let upto = if ctx.rng.chance(1, 2) { s } else { first + ctx.rng.below(s - first + 1) };
+                // the purge marker only moves forward (a purge below it would open a hole before the first entry)
+                let upto = upto.max(purged.unwrap_or(0));
+                if upto > s { continue; }
                 let id = gmap.get(&upto).map(|e| e.log_id).unwrap_or_else(|| mk_lid(1, 1, upto));
                 ops.push(Op::Purge(id));
                 local.retain(|k, _| *k > upto);
